@@ -374,6 +374,14 @@ fn s2_specs(tier: Tier) -> Vec<Value> {
             specs.push(json!({"text": format!("{}{}", a, b)}));
         }
     }
+    // alternations of sums (union of ranges across branches)
+    let tiny: Vec<&String> = small.iter().step_by(tier.pick(5, 2)).collect();
+    for a in &tiny {
+        for b in &tiny {
+            specs.push(json!({"text": format!("{{{}{},{}}}", a, b, b)}));
+            specs.push(json!({"text": format!("{{{},{}}}", a, b)}));
+        }
+    }
     specs
 }
 
@@ -474,6 +482,7 @@ fn load_exact_inputs() -> Vec<String> {
 
 pub fn c05(tier: Tier) -> i32 {
     let rep = Report::new("C05", tier, "exploration");
+    let known = load_exact_inputs();
     // S1
     let l = tier.pick(4u32, 5u32);
     let k = S1_ALPHABET.len() as u64;
@@ -504,7 +513,7 @@ pub fn c05(tier: Tier) -> i32 {
             }
             else {
                 rep.alarm(Alarm {
-                    class: None,
+                    class: classify_isolated(&json!({"text": s}), &r, &known),
                     key: format!("panic {:?}", s),
                     msg: format!("expression {:?}: {}", s, r),
                     case: json!({"kind": "total", "spec": {"text": s}}),
@@ -548,7 +557,7 @@ pub fn c05(tier: Tier) -> i32 {
         let r = if syntax::size(&e.ast) <= full_ops_size { run_one(&e.text, true) } else { run_light(&e.text) };
         if r.starts_with("PANIC") {
             rep.alarm(Alarm {
-                class: None,
+                class: classify_isolated(&json!({"text": e.text}), &r, &known),
                 key: format!("panic {:?}", e.text),
                 msg: format!("expression {:?}: {}", e.text, r),
                 case: json!({"kind": "total", "spec": {"text": e.text}}),
@@ -557,7 +566,6 @@ pub fn c05(tier: Tier) -> i32 {
     });
     rep.add("program_space_expressions", n);
     // S2 / S3: isolated
-    let known = load_exact_inputs();
     let mut specs = s2_specs(tier);
     let n2 = specs.len();
     specs.extend(s3_specs(tier));
